@@ -1788,7 +1788,9 @@ export class AnyOfDiscriminatedRuntype extends BaseRuntype {
           propertyName: this.discriminator,
           mapping: Object.fromEntries(variantRefs.map(({ key, ref }) => [key, ref])),
         },
-        oneOf: variantRefs.map(({ ref }) => ({ $ref: ref })),
+        // one branch per variant: a variant selected by several discriminator values must not be
+        // listed twice, or no document of it satisfies "exactly one"
+        oneOf: [...new Set(variantRefs.map(({ ref }) => ref))].map((ref) => ({ $ref: ref })),
       });
     }
 
@@ -1802,10 +1804,17 @@ export class AnyOfDiscriminatedRuntype extends BaseRuntype {
   }
   private getSchemaVariantRefs(ctx: SchemaContext): Array<{ key: string; ref: string }> {
     const unionHash = this.hash({ seen: {} });
-    return Object.entries(this.schemaMapping).map(([key, schema]) => ({
-      key,
-      ref: this.ensureSchemaVariantRef(schema, key, unionHash, ctx),
-    }));
+    // a variant whose discriminator is itself a union ("a" | "b") is mapped by several keys: it gets
+    // one definition, named after the first of them
+    const refOfVariant = new Map<Runtype, string>();
+    return Object.entries(this.schemaMapping).map(([key, schema]) => {
+      let ref = refOfVariant.get(schema);
+      if (ref == null) {
+        ref = this.ensureSchemaVariantRef(schema, key, unionHash, ctx);
+        refOfVariant.set(schema, ref);
+      }
+      return { key, ref };
+    });
   }
 
   private getPrintingContext(ctx: SchemaContext): SchemaPrintingContext {
